@@ -70,3 +70,41 @@ def loops(body):
 
 def dominates(dom, a, b):
     return a in dom.get(b, ())
+
+
+VIEW_FNS = {"deref", "deref_mut", "as_ref", "as_mut", "as_slice", "as_mut_slice", "as_bytes", "as_bytes_mut", "borrow", "borrow_mut", "as_mut_ptr", "as_ptr"}
+
+def root_of(f, operand, depth=0):
+    """Follows `x = &y`, `x = &(*y)`, `x = copy/move y`, unsize casts back to the local that owns the bytes,
+    or to the call that produced the reference. Returns (local or None, callee path or None)."""
+    pl = operand.get("copy") or operand.get("move") if isinstance(operand, dict) else None
+    if pl is None or depth > 12:
+        return None, None
+    l = pl["l"]
+    defs = []
+    for b in f["body"]["blocks"]:
+        for st in b["stmts"]:
+            if st["k"] == "assign" and st["place"]["l"] == l and not st["place"]["p"]:
+                defs.append(("stmt", st["rv"]))
+        t = b["term"]
+        if t["k"] == "call" and t.get("dest") and t["dest"]["l"] == l and not t["dest"]["p"]:
+            defs.append(("call", t))
+    if len(defs) != 1:
+        return (l, None) if not defs or l <= f["body"]["argc"] else (l, None)
+    kind, d = defs[0]
+    if kind == "call":
+        cp = (d.get("callee") or {}).get("path") or ""
+        if cp.rsplit("::", 1)[-1] in VIEW_FNS and len(d["args"]) == 1:
+            return root_of(f, d["args"][0], depth + 1)
+        return None, cp
+    if d["k"] in ("ref", "rawptr"):
+        p2 = d["place"]
+        if not p2["p"]:
+            return p2["l"], None
+        if p2["p"] == ["*"]:
+            return root_of(f, {"copy": {"l": p2["l"], "p": []}}, depth + 1)
+        return p2["l"], None
+    if d["k"] == "use" or d["k"] == "cast":
+        return root_of(f, d["op"], depth + 1)
+    return l, None
+
